@@ -37,6 +37,10 @@ func (v *DeliverScopeVariables) Get(s context.Scope, name string) (value.Value, 
 
 	switch name {
 	case BEREQ_BODY_BYTES_WRITTEN:
+		// no backend request on this path (synthetic response or cache hit), or no body
+		if bereq == nil || bereq.Body == nil {
+			return &value.Integer{Value: 0}, nil
+		}
 		var buf bytes.Buffer
 		if _, err := buf.ReadFrom(bereq.Body); err != nil {
 			return value.Null, errors.WithStack(err)
@@ -52,6 +56,9 @@ func (v *DeliverScopeVariables) Get(s context.Scope, name string) (value.Value, 
 
 	case BEREQ_HEADER_BYTES_WRITTEN:
 		var headerBytes int64
+		if bereq == nil {
+			return &value.Integer{Value: 0}, nil
+		}
 		// FIXME: Do we need to include total byte header LF bytes?
 		for k, v := range bereq.Header {
 			// add ":" character that header separator character
@@ -141,11 +148,7 @@ func (v *DeliverScopeVariables) Get(s context.Scope, name string) (value.Value, 
 	case REQ_BACKEND_IS_CLUSTER:
 		return &value.Boolean{Value: false}, nil
 	case REQ_BACKEND_NAME:
-		var name string
-		if v.ctx.Backend != nil {
-			name = v.ctx.Backend.Value.Name.Value
-		}
-		return &value.String{Value: name}, nil
+		return &value.String{Value: getBackendName(v.ctx.Backend)}, nil
 	case REQ_BACKEND_PORT:
 		return getBackendPort(v.ctx.Backend)
 	case BERESP_BACKEND_HOST:
